@@ -495,7 +495,8 @@ def call_request(burn, thr, n_allele, chains, ploidy):
 
 def run_call_trace(chk, drv, r, chains, n_allele, ploidy, burns, sorted_rows, tag, Trace, thr_override=None):
     n_chains, n_steps = len(chains), len(chains[0])
-    arr = np.array(chains, dtype=r.choice([np.int8, np.int16, np.int64]))
+    # the samplers store allele indices as int32 / int64; int8 only fits panels of at most 128 haplotypes
+    arr = np.array(chains, dtype=r.choice([np.int8, np.int16, np.int64] if n_allele <= 127 else [np.int16, np.int32, np.int64]))
     trace0 = Trace(arr, np.zeros((n_chains, n_steps)), n_allele)
     canon = lambda g: tuple(sorted(g))
     ident = lambda g: tuple(g)
@@ -821,6 +822,17 @@ def run(tier, replay=None):
         n_allele = k + r.choice([0, 0, 1, 3])
         burns = list(range(0, n_steps + 1))
         run_call_trace(chk, drv, r, chains, n_allele, ploidy, burns, sorted_rows, "random", GenotypeAllelesMultiTrace)
+
+    # ---------------- call family, large haplotype panels (allele indices well above 64)
+    for i in range(max(2, n_call // 6)):
+        n_chains, n_steps, _p = gen_shape(r, tier)
+        ploidy = r.choice([1, 2, 2])
+        k = r.randint(2, 5)
+        n_allele = r.choice([70, 100, 130, 200])
+        amap = sorted(r.sample(range(n_allele), k)) if r.random() < 0.3 else sorted(r.sample(range(60, n_allele), k))
+        chains = [[sorted(amap[a] for a in g) for g in ch] for ch in gen_steps(r, n_chains, n_steps, ploidy, k)]
+        burns = sorted({0, n_steps // 2, max(0, n_steps - 1)})
+        run_call_trace(chk, drv, r, chains, n_allele, ploidy, burns, True, "large-panel", GenotypeAllelesMultiTrace)
 
     run_relabel(chk, drv, r, n_small, GenotypeAllelesMultiTrace)
     run_ped(chk, drv, r, n_small, PedigreeAllelesMultiTrace)
